@@ -60,12 +60,14 @@ func (u *memoryManagementUnit) getFromL3(addrs []int32) ([]int8, bool, bool) {
 }
 
 func (u *memoryManagementUnit) doesExecutionMemoryChangesExistsInL3(execution risc.Execution) bool {
-	addrs := make([]int32, 0, len(execution.MemoryChanges))
+	// Only a lookup: a store that misses goes to memory and nothing is fetched
+	// for it, so it must not mark the line as being fetched
 	for addr := range execution.MemoryChanges {
-		addrs = append(addrs, addr)
+		if _, exists := u.l3.Get(addr); !exists {
+			return false
+		}
 	}
-	_, _, exists := u.getFromL3(addrs)
-	return exists
+	return true
 }
 
 func (u *memoryManagementUnit) writeExecutionMemoryChangesToL3(execution risc.Execution) {
